@@ -56,6 +56,9 @@ func (g *gen) Add(name string, typs []types.Type) (string, error) {
 	}
 	if len(typs) == 1 {
 		if tup, ok := typs[0].(*types.Tuple); ok {
+			if tup.Len() == 0 {
+				return "", fmt.Errorf("%s, the argument has no value", name)
+			}
 			tuptypes := make([]types.Type, tup.Len())
 			for i := range tuptypes {
 				tuptypes[i] = tup.At(i).Type()
@@ -66,6 +69,9 @@ func (g *gen) Add(name string, typs []types.Type) (string, error) {
 	for i, typ := range typs {
 		if basic, ok := typ.(*types.Basic); ok && basic.Kind() == types.UntypedNil {
 			return "", fmt.Errorf("%s, argument number %d is an untyped nil, which has no type to return", name, i)
+		}
+		if _, ok := typ.(*types.Tuple); ok {
+			return "", fmt.Errorf("%s, argument number %d, %s, is not a single value", name, i, typ)
 		}
 	}
 	return g.SetFuncName(name, typs...)
